@@ -258,44 +258,30 @@ Definition parse_count (d : bytes) : option N :=
          end
   end.
 
-(* ---- the regular-expression fragment: ^? literal $? under (?m) *)
+(* ---- the environment as a child prints it: one KEY=VALUE line per key (the last binding
+   wins, PWD is the directory of the child), sorted byte-wise *)
+Fixpoint bytes_leb (a b : bytes) : bool :=
+  match a, b with
+  | [], _ => true
+  | _ :: _, [] => false
+  | x :: a', y :: b' => if N.ltb (bN x) (bN y) then true else if N.ltb (bN y) (bN x) then false else bytes_leb a' b'
+  end.
+Fixpoint insert_sorted (x : bytes) (l : list bytes) : list bytes :=
+  match l with
+  | [] => [x]
+  | y :: r => if bytes_leb x y then x :: l else y :: insert_sorted x r
+  end.
+Definition sort_bytes (l : list bytes) : list bytes := fold_right insert_sorted [] l.
 
-Record pat := { pt_bol : bool; pt_lit : bytes; pt_eol : bool }.
-
-Definition plain_byte (b : byte) : bool := negb (regexp_special b) && N.ltb (bN b) 128 && negb (beq b NL).
-
-Definition parse_pat (p : bytes) : option pat :=
-  let '(bol, p1) := match p with b :: r => if beq b x5e then (true, r) else (false, p) | [] => (false, p) end in
-  let '(eol, lit) := match rev p1 with b :: r => if beq b x24 then (true, rev r) else (false, p1) | [] => (false, p1) end in
-  match lit with
-  | [] => None
-  | _ => if forallb plain_byte lit then Some {| pt_bol := bol; pt_lit := lit; pt_eol := eol |} else None
+Fixpoint nodup_keys (seen : list bytes) (env : list (bytes * bytes)) : list bytes :=
+  match env with
+  | [] => []
+  | (k, _) :: r => if mem_bytes k seen then nodup_keys seen r else k :: nodup_keys (k :: seen) r
   end.
 
-(* does the pattern match with its first byte at the head of [rest]; [prev] is the byte
-   in front of it *)
-Definition match_here (p : pat) (prev : option byte) (rest : bytes) : bool :=
-  has_prefix (pt_lit p) rest
-  && (negb (pt_bol p) || match prev with None => true | Some b => beq b NL end)
-  && (negb (pt_eol p) || match skipn (length (pt_lit p)) rest with [] => true | b :: _ => beq b NL end).
-
-(* leftmost, non-overlapping matches as regexp.FindAllString counts them (the literal is
-   not empty) *)
-Fixpoint count_matches_fuel (fuel : nat) (p : pat) (prev : option byte) (rest : bytes) : N :=
-  match fuel with
-  | 0 => 0%N
-  | S f =>
-      match rest with
-      | [] => 0%N
-      | b :: r =>
-          if match_here p prev rest then
-            let k := length (pt_lit p) in
-            (1 + count_matches_fuel f p (Some (List.last (pt_lit p) b)) (skipn k rest))%N
-          else count_matches_fuel f p (Some b) r
-      end
-  end.
-Definition count_matches (p : pat) (text : bytes) : N := count_matches_fuel (S (length text)) p None text.
-Definition has_match (p : pat) (text : bytes) : bool := negb (N.eqb (count_matches p text) 0).
+Definition environ_lines (env : list (bytes * bytes)) (cd : bytes) : list bytes :=
+  let full := env ++ [((* "PWD" *) [x50; x57; x44], cd)] in
+  sort_bytes (map (fun k => k ++ [x3d] ++ getenv full k ++ [NL]) (nodup_keys [] full)).
 
 (* ---- the helper program run by exec *)
 
@@ -352,6 +338,8 @@ Definition helper_run (args : list bytes) (stdin : bytes) (env : list (bytes * b
         match a with [] => hres 0 stdin [] t | _ => usage end
       else if bytes_eqb sub ((* "env" *) [x65; x6e; x76]) then
         match a with [k] => hres 0 (child_getenv env cd k ++ [NL]) [] t | _ => usage end
+      else if bytes_eqb sub ((* "environ" *) [x65; x6e; x76; x69; x72; x6f; x6e]) then
+        match a with [] => hres 0 (concat (environ_lines env cd)) [] t | _ => usage end
       else if bytes_eqb sub ((* "pwd" *) [x70; x77; x64]) then
         match a with [] => hres 0 (cd ++ [NL]) [] t | _ => usage end
       else if bytes_eqb sub ((* "write" *) [x77; x72; x69; x74; x65]) then
